@@ -227,6 +227,30 @@ class Ctx:
         self.budget_s: float | None = None
         self._workdir: Path | None = None
         self._case_n = 0
+        self.first_fail_t: float | None = None  # per search round
+        self.best_fail: dict | None = None
+
+    # ---- shrink budget: Hypothesis has no time bound on shrinking short of its
+    # own 5-minute cap; once the budget is used up every further example is
+    # rejected, which ends shrinking quickly; the smallest failing case seen
+    # so far becomes the replay.
+    @property
+    def shrink_budget(self) -> float:
+        return float(os.environ.get('VERIF_SHRINK_S', '25' if self.quick else '90'))
+
+    def shrink_expired(self) -> bool:
+        return self.first_fail_t is not None and time.time() - self.first_fail_t > self.shrink_budget
+
+    def reject_if_shrink_expired(self):
+        if self.shrink_expired():
+            import hypothesis
+
+            hypothesis.reject()
+
+    def new_round(self):
+        self.first_fail_t = None
+        self.best_fail = None
+        self.last_fail = None
 
     # ---- tiers
     @property
@@ -278,6 +302,13 @@ class Ctx:
             'detail': detail[:2000],
             'case': jsonable(case if case is not None else self.current_case),
         }
+        if self.first_fail_t is None:
+            self.first_fail_t = time.time()
+        size = len(json.dumps(self.last_fail['case']))
+        if self.best_fail is None or (
+            size <= self.best_fail['size'] and sig == self.best_fail['rec']['signature']
+        ):
+            self.best_fail = {'size': size, 'rec': self.last_fail}
         raise Violation(sig, detail)
 
     def fail_exc(self, clause: str, exc: BaseException, disc: str = '', case=None):
@@ -309,6 +340,8 @@ class Ctx:
     # ---- record a violation (after shrinking)
     def record_violation(self):
         lf = self.last_fail or {'signature': f'{self.pid}:unknown', 'detail': '', 'case': None}
+        if self.shrink_expired() and self.best_fail is not None:
+            lf = self.best_fail['rec']
         sig = lf['signature']
         self.session_seen.add(sig)
         rdir = VERIF / 'replays' / self.pid
@@ -417,7 +450,16 @@ def _settings(max_examples: int, stateful_steps: int | None = None, shrink: bool
     return settings(**kw)
 
 
-MAX_DISTINCT_VIOLATIONS = 6
+MAX_DISTINCT_VIOLATIONS = int(os.environ.get('VERIF_MAX_VIOLATIONS', '4'))
+
+
+def _is_flaky(e: BaseException) -> bool:
+    try:
+        from hypothesis.errors import Flaky
+
+        return isinstance(e, Flaky)
+    except ImportError:  # pragma: no cover
+        return False
 
 
 def run_given(ctx: Ctx, strategy, body, max_examples: int, salt: int = 0, shrink: bool = True):
@@ -430,10 +472,13 @@ def run_given(ctx: Ctx, strategy, body, max_examples: int, salt: int = 0, shrink
     while rounds < MAX_DISTINCT_VIOLATIONS:
         rounds += 1
 
+        ctx.new_round()
+
         @seed(ctx.hseed(salt + rounds - 1))
         @_settings(max_examples, shrink=shrink)
         @given(strategy)
         def test(case):
+            ctx.reject_if_shrink_expired()
             body(case)
 
         try:
@@ -446,6 +491,11 @@ def run_given(ctx: Ctx, strategy, body, max_examples: int, salt: int = 0, shrink
         except BaseException as e:  # unexpected exception escaping the body
             if isinstance(e, (KeyboardInterrupt, SystemExit)):
                 raise
+            if ctx.shrink_expired() and ctx.best_fail is not None and _is_flaky(e):
+                ctx.record_violation()
+                continue
+            if ctx.violations and type(e).__name__ == 'Unsatisfiable':
+                return  # every further case hits an already reported cause
             if type(e).__module__.startswith('hypothesis'):
                 raise HarnessError(f'hypothesis error: {e!r}') from e
             # An exception that the body did not classify: report it under a
@@ -466,6 +516,7 @@ def run_machine(ctx: Ctx, machine_cls, max_examples: int, steps: int, salt: int 
     rounds = 0
     while rounds < MAX_DISTINCT_VIOLATIONS:
         rounds += 1
+        ctx.new_round()
         seeded = seed(ctx.hseed(salt + rounds - 1))(machine_cls)
         try:
             run_state_machine_as_test(seeded, settings=_settings(max_examples, steps, shrink))
@@ -477,6 +528,11 @@ def run_machine(ctx: Ctx, machine_cls, max_examples: int, steps: int, salt: int 
         except BaseException as e:
             if isinstance(e, (KeyboardInterrupt, SystemExit)):
                 raise
+            if ctx.shrink_expired() and ctx.best_fail is not None and _is_flaky(e):
+                ctx.record_violation()
+                continue
+            if ctx.violations and type(e).__name__ == 'Unsatisfiable':
+                return  # every further case hits an already reported cause
             if type(e).__module__.startswith('hypothesis'):
                 raise HarnessError(f'hypothesis error: {e!r}') from e
             try:
@@ -628,6 +684,7 @@ def logged_machine_base():
 
         def __init__(self):
             super().__init__()
+            self.ctx.reject_if_shrink_expired()
             self.log: list = []
             self.ctx.case(self.log)
 
